@@ -56,7 +56,7 @@ def run(prop, spec, tier, scratch, known, vcheck):
             if tier not in e.get("tiers", ["quick", "thorough"]):
                 continue
             jobs.append({"group": group, "entry": e, "params": e.get(tier, {}).get("params", [0]), "bound": e.get(tier, {}).get("bound", 0),
-                         "flags": e.get("flags", []) + e.get(tier, {}).get("flags", []), "prog": group["program"]})
+                         "flags": vcheck.entry_flags(e, tier), "prog": group["program"]})
 
     def run_job(job):
         g = job["group"]
